@@ -1,6 +1,7 @@
 import Driver.Proto
 import PolyVerif.Model.Splat
 import PolyVerif.Model.Spz
+import PolyVerif.Model.SpzHalf
 
 namespace Driver.C15
 open PolyVerif PolyVerif.Splat
@@ -167,6 +168,25 @@ def readersAgree : List String → Option Bool
 def handleSpz (op : String) (args : List String) : Option String :=
   match op, args with
   | "c15.spz.read", [hex] => (hexBytes? hex).map spzReadAnswer
+  | "c15.spz.halfall", [base, count] => do
+      -- version-1 positions, EVERY pattern: the operator form of util.go halfToFloat on `BitVec 16`
+      -- (Half.halfToFloatBits, proved equal to Spz.halfToFloat and to IEEE binary16 in Props/C15Half.lean)
+      let b ← base.toNat?; let n ← count.toNat?
+      pure (fsHexC ((List.range n).map fun i => Half.halfToFloatBits spzEnv (BitVec.ofNat 16 (b + i))))
+  | "c15.holds.half_binary16", base :: count :: vals => do
+      -- the closed form of half_is_binary16 on the implementation's values: NaN / signed infinity /
+      -- ± num h / 2^25 bit for bit, and (half_step) consecutive non-negative finite patterns one ulp apart
+      let b ← base.toNat?; let n ← count.toNat?
+      let vs ← floats? vals
+      if vs.length ≠ n then pure "false"
+      else
+        let each := ((List.range n).zip vs).all fun (i, v) => Half.isBinary16 ((b + i) % 65536) v
+        let rec steps : Nat → List Float → Bool
+          | h, v :: w :: r =>
+              (!(decide (h + 1 < 31744)) || (w - v == Float.scaleB 1.0 (Int.ofNat (max (Half.expOf h) 1) - 25) && v < w))
+                && steps (h + 1) (w :: r)
+          | _, _ => true
+        pure (boolStr (each && steps b vs))
   | "c15.spz.validate", [magic, ver, np, deg] => do
       -- Header.Validate alone, on the boundaries of every guard
       let h : Spz.Header := ⟨← magic.toNat?, ← ver.toNat?, ← np.toNat?, ← deg.toNat?, 0, 0, 0⟩
